@@ -4,7 +4,8 @@
 (* MarketRouting allows.                                                     *)
 (*   {"a":"Reset",..}        start of a scenario: nothing is connected       *)
 (*   {"a":"Subscribe","c":route,"S":[markets],"off":n,..,"out":[]}           *)
-(*   {"a":"Message","c":route,"m":market,"fs":[items],"out":[ev|unid,..]}    *)
+(*   {"a":"Message","c":route,"m":market,"fs":[items],"buf":bool,            *)
+(*    "out":[ev|unid,..]}    buf: replayed through process_buffered_events  *)
 (*   {"a":"Disconnect","c":route,..,"out":[]}                                *)
 (* `out` is the projection of what Transformer::transform returned.  A line  *)
 (* that is not a step of the spec is recorded in `bad` (one pass reports     *)
@@ -18,8 +19,8 @@ VARIABLES l, bad
 tvars == <<conn, subs, out, last, l, bad>>
 
 ToSet(s) == {s[i] : i \in DOMAIN s}
-EvOf(r) == Step(r.a, r.c, ToSet(r.S), r.off, r.m, r.fs)
-ResetStep == Step("Reset", NoConn, {}, 0, 0, <<>>)
+EvOf(r) == Step(r.a, r.c, ToSet(r.S), r.off, r.d, r.dk, r.m, r.fs, r.buf)
+ResetStep == Step("Reset", NoConn, {}, 0, 0, 0, 0, <<>>, FALSE)
 
 TInit == /\ l = 1
          /\ bad = <<>>
@@ -34,6 +35,7 @@ TReset == /\ Rec[l].a = "Reset"
 StepOK(e, o) ==
   CASE e.a = "Subscribe"  -> /\ conn = NoConn /\ e.c \in Conns /\ e.S \subseteq Markets
                              /\ e.off \in KeyOffs /\ o = <<>>
+                             /\ e.dk \in DupKinds /\ (IF e.dk = 0 THEN e.d = 0 ELSE e.d \in e.S)
     [] e.a = "Message"    -> /\ conn # NoConn /\ e.c = conn /\ e.m \in Markets
                              /\ \A i \in DOMAIN e.fs : e.fs[i].s \in SidesOf(conn)
                              /\ OutOK(conn, subs, e.m, e.fs, o)
@@ -50,7 +52,7 @@ TStepBad == /\ Rec[l].a # "Reset"
             /\ ~StepOK(EvOf(Rec[l]), Rec[l].out)
             /\ LET e == EvOf(Rec[l]) IN
                /\ conn' = IF e.a = "Disconnect" THEN NoConn ELSE e.c
-               /\ subs' = CASE e.a = "Subscribe"  -> [m \in e.S |-> KeyOf(m, e.off)]
+               /\ subs' = CASE e.a = "Subscribe"  -> [m \in e.S |-> KeysOf(m, e.off, e.d, e.dk)]
                             [] e.a = "Disconnect" -> EmptyFn
                             [] OTHER              -> subs
                /\ last' = e
